@@ -424,6 +424,102 @@ func (g *FnGen) doCall(ci ssa.CallInstruction, v ssa.Value) {
 			g.assumeClause(eg, e.E, ctx, fmt.Sprintf("ensures:%s:%s", name, clauseLabel(e, i)))
 		}
 	}
+	g.lockHook(ci, name, guard)
+}
+
+// Monitor reasoning for the mutex of a shared node type (C17). The fields declared "guarded" are
+// only touched under the owner's mutex (shared-write obligations), so between two holds other
+// goroutines may have changed them in any way their own critical sections allow. Acquiring the
+// mutex therefore forgets what this function knew about the guarded fields (and about the
+// contents of a map held in one) and assumes the lock invariant ("lockinv T") together with the
+// rely relation ("rely T", from the state before the acquire). Releasing it obliges the lock
+// invariant and the same relation as a guarantee, from the state right after the acquire: what
+// this critical section did is something every other holder tolerates.
+func (g *FnGen) lockHook(ci ssa.CallInstruction, name, guard string) {
+	acquire := name == "(*sync.Mutex).Lock" || name == "(*sync.RWMutex).Lock" || name == "(*sync.RWMutex).RLock"
+	release := name == "(*sync.Mutex).Unlock" || name == "(*sync.RWMutex).Unlock"
+	if !acquire && !release {
+		return
+	}
+	c := ci.Common()
+	if len(c.Args) == 0 {
+		return
+	}
+	fa, ok := c.Args[0].(*ssa.FieldAddr)
+	if !ok {
+		return
+	}
+	st, sT := derefStruct(fa.X.Type())
+	if st == nil {
+		return
+	}
+	tn := typeName(st)
+	if len(g.S.LockInvs[tn]) == 0 && len(g.S.Relies[tn]) == 0 {
+		return
+	}
+	owner := g.val(fa.X)
+	r := g.root()
+	if r.acquired == nil {
+		r.acquired = map[string]State{}
+	}
+	site := g.siteNames[ci]
+	if acquire {
+		pre := g.st.clone()
+		for i := 0; i < sT.NumFields(); i++ {
+			k, _ := g.D.fieldKey(st, i)
+			if !g.S.Guarded[k] {
+				continue
+			}
+			g.ensureKey(k)
+			ft := sT.Field(i).Type()
+			if mt, ok := ft.Underlying().(*types.Map); ok {
+				// the map object stays, its contents are whatever the other holders left
+				m := sel(g.D.get(g.st, k), owner.T)
+				h, vk, l := g.D.mapKeysT(mt.Key(), mt.Elem())
+				for _, mk := range []string{h, vk, l} {
+					g.ensureKey(mk)
+					srt := g.D.heapSorts[mk]
+					es := strings.TrimSuffix(strings.TrimPrefix(srt, "(Array Ref "), ")")
+					g.st[mk] = g.def("hlock", srt, store(g.D.get(g.st, mk), m, g.freshConst("hv_lock", es)))
+				}
+				continue
+			}
+			srt := g.D.heapSorts[k]
+			es := strings.TrimSuffix(strings.TrimPrefix(srt, "(Array Ref "), ")")
+			g.st[k] = g.def("hlock", srt, store(g.D.get(g.st, k), owner.T, g.freshConst("hv_lock", es)))
+		}
+		for _, cl := range g.S.LockInvs[tn] {
+			ctx := &EvalCtx{g: g, env: map[string]Val{"self": owner}, st: g.st, oldSt: g.st}
+			g.assumeClause(guard, cl.E, ctx, "lockinv:"+tn)
+		}
+		for _, cl := range g.S.Relies[tn] {
+			ctx := &EvalCtx{g: g, env: map[string]Val{"self": owner}, st: g.st, oldSt: pre, oldEnv: map[string]Val{"self": owner}}
+			g.assumeClause(guard, cl.E, ctx, "rely:"+tn)
+		}
+		r.acquired[owner.T] = g.st.clone()
+		return
+	}
+	for i, cl := range g.S.LockInvs[tn] {
+		ctx := &EvalCtx{g: g, env: map[string]Val{"self": owner}, st: g.st, oldSt: g.st}
+		c2 := cl
+		if c2.Name == "" {
+			c2.Name = fmt.Sprint(i)
+		}
+		g.obligeClause("lockinv", site+"/"+tn+":"+c2.Name, guard, c2, ctx, ci.Pos())
+	}
+	if acq, ok := r.acquired[owner.T]; ok {
+		for i, cl := range g.S.Relies[tn] {
+			ctx := &EvalCtx{g: g, env: map[string]Val{"self": owner}, st: g.st, oldSt: acq, oldEnv: map[string]Val{"self": owner}}
+			c2 := cl
+			if c2.Name == "" {
+				c2.Name = fmt.Sprint(i)
+			}
+			g.obligeClause("lockinv", site+"/"+tn+":guarantee:"+c2.Name, guard, c2, ctx, ci.Pos())
+		}
+		delete(r.acquired, owner.T)
+	} else if len(g.S.Relies[tn]) > 0 {
+		panic(unsupported{"Unlock of a monitor whose Lock is not in the same function"})
+	}
 }
 
 func (g *FnGen) mergeEnv(callEnv map[string]Val) map[string]Val {
